@@ -56,6 +56,119 @@ def run(tier: str, seed: int, reg: Any, jobs: int = 16) -> list:
             except Exception as e:  # pylint: disable=broad-except
                 if len(fails) < 4 and "MUST" not in str(e) and "mandatory" not in str(e).lower():
                     fails.append({"inputs": {"family": fam, "image": name}, "detail": f"{type(e).__name__}: {e}", "obligation": "crc-word-matches-image-without-it"})
-    return [{"name": "CRC images against an independent CRC-32/MPEG-2", "function": "spsdk.image.mbi.mbi_mixin:Mbi_ExportMixinCrcSign.sign",
+    enc = _encrypted_signed(tier, seed)
+    return [enc, {"name": "CRC images against an independent CRC-32/MPEG-2", "function": "spsdk.image.mbi.mbi_mixin:Mbi_ExportMixinCrcSign.sign",
              "method": "every distinct key-less CRC composition of the live database, bit-serial reference CRC", "bound": f"{n} images", "cases": max(n, 1),
              "label": "bounded", "failures": fails}]
+
+
+def _encrypted_signed(tier: str, seed: int) -> dict:
+    """Encrypted + signed load-to-RAM images (rt5xx, cert block v1, RSA-2048 repository test keys) decoded by hand the way the ROM does:
+    HMAC over the first 64 bytes, IVT words, certificate block header (image length = bytes in front of the signature), RSA signature over
+    exactly those bytes, AES-CTR decryption with the stored IV gives back application and TrustZone data."""
+    import hashlib
+    import hmac as py_hmac
+    import os
+    import random
+    import struct
+
+    from cryptography import x509
+    from cryptography.hazmat.primitives import hashes
+    from cryptography.hazmat.primitives.asymmetric import padding
+    from cryptography.hazmat.primitives.ciphers import Cipher, algorithms, modes
+
+    from spsdk.crypto.certificate import Certificate
+    from spsdk.crypto.signature_provider import SignatureProvider
+    from spsdk.image.keystore import KeySourceType, KeyStore
+    from spsdk.image.mbi.mbi import create_mbi_class
+    from spsdk.image.mbi.mbi_mixin import MultipleImageEntry, MultipleImageTable
+    from spsdk.image.trustzone import TrustZone
+    from spsdk.utils.crypto.cert_blocks import CertBlockV1
+    from spsdk.utils.misc import load_configuration
+
+    repo = os.environ.get("VF_REPO", "/repo")
+    data = os.path.join(repo, "tests", "image", "mbi", "data")
+    user_key = bytes.fromhex("E39FD7AB61AE6DDDA37158A0FC3008C6D61100A03C7516EA1BE55A39F546BAD5")
+    rnd = random.Random(seed)
+    der = open(os.path.join(data, "keys_and_certs", "selfsign_2048_v3.der.crt"), "rb").read()
+    presets = load_configuration(os.path.join(data, "multicore", "rt5xxA0.yaml"))["trustZonePreset"]
+
+    def ecb(key: bytes, d: bytes) -> bytes:
+        e = Cipher(algorithms.AES(key), modes.ECB()).encryptor()
+        return e.update(d) + e.finalize()
+
+    def ctr(key: bytes, d: bytes, nonce: bytes) -> bytes:
+        e = Cipher(algorithms.AES(key), modes.CTR(nonce)).encryptor()
+        return e.update(d) + e.finalize()
+
+    fails: list = []
+    n = 0
+    cases = [("disabled", False), ("custom", False), ("custom", True), ("enabled", False)]
+    if tier == "thorough":
+        cases = cases * 3
+    for tz_kind, with_table in cases:
+        n += 1
+        label = {"trust_zone": tz_kind, "relocation_table": with_table}
+        try:
+            app = bytearray(rnd.getrandbits(8) for _ in range(rnd.choice([0x400, 0x7FC, 0x1230])))
+            app[0x20:0x2C] = bytes(12)
+            app[0x34:0x38] = bytes(4)
+            app = bytes(app)
+            iv = bytes(rnd.getrandbits(8) for _ in range(16))
+            tz = {"disabled": TrustZone.disabled, "enabled": TrustZone.enabled, "custom": lambda: TrustZone.custom("rt5xx", presets)}[tz_kind]()
+            blk = CertBlockV1(build_number=1)
+            blk.add_certificate(der)
+            blk.set_root_key_hash(0, Certificate.parse(der))
+            kw: dict = {}
+            if with_table:
+                table = MultipleImageTable()
+                table.add_entry(MultipleImageEntry(bytes(range(200)), 0x80000))
+                kw["app_table"] = table
+            key = os.path.join(data, "keys_and_certs", "selfsign_privatekey_rsa2048.pem")
+            image = create_mbi_class("encrypted_signed_ram", "rt5xx")(
+                app=app, load_address=0x00180000, trust_zone=tz, cert_block=blk, signature_provider=SignatureProvider.create(f"type=file;file_path={key}"),
+                hmac_key=user_key, key_store=KeyStore(KeySourceType.OTP), ctr_init_vector=iv, **kw).export()
+            tz_data = tz.export()
+            problems = []
+            if image[64:96] != py_hmac.new(ecb(user_key, bytes(16)), image[:64], hashlib.sha256).digest():
+                problems.append("HMAC over the first 64 bytes")
+            body = image[:64] + image[96:]
+            total_len, flags, cert_off = struct.unpack_from("<3I", body, 0x20)
+            if total_len != len(image):
+                problems.append(f"IVT total length {total_len} != {len(image)}")
+            magic, _a, _b, hdr_len, _f, _bn, image_length, cert_count, table_len = struct.unpack_from("<4s2H6I", body, cert_off)
+            if magic != b"cert":
+                problems.append("no certificate block where IVT word 0x28 points")
+            else:
+                (size,) = struct.unpack_from("<I", body, cert_off + hdr_len)
+                c = body[cert_off + hdr_len + 4: cert_off + hdr_len + 4 + size]
+                c = c[: 4 + int.from_bytes(c[2:4], "big")]
+                pub = x509.load_der_x509_certificate(c).public_key()
+                end = cert_off + hdr_len + table_len + 4 * 32
+                signed, sig = body[:-256], body[-256:]
+                try:
+                    pub.verify(sig, signed, padding.PKCS1v15(), hashes.SHA256())
+                except Exception as e:  # pylint: disable=broad-except
+                    problems.append(f"RSA signature over the bytes in front of it does not verify ({type(e).__name__})")
+                if image_length != len(signed):
+                    problems.append(f"certificate block header authenticates {image_length} bytes but {len(signed)} bytes precede the signature")
+                if signed[end + 56: end + 72] != iv:
+                    problems.append("IV is not stored behind the encrypted IVT copy")
+                else:
+                    aes_key = ecb(user_key, bytes([1] + [0] * 15 + [2] + [0] * 15))
+                    plain = ctr(aes_key, signed[end: end + 56] + signed[56:cert_off] + signed[end + 72:], iv)
+                    exp = bytearray(app)
+                    struct.pack_into("<3I", exp, 0x20, total_len, flags, cert_off)
+                    struct.pack_into("<I", exp, 0x34, 0x00180000)
+                    if plain[: len(app)] != bytes(exp):
+                        problems.append("AES-CTR decryption with the stored IV does not restore the application")
+                    if plain[cert_off:] != tz_data:
+                        problems.append("decrypted TrustZone data differ")
+            if problems and len(fails) < 5:
+                fails.append({"inputs": label, "detail": "; ".join(problems), "obligation": "encrypted-signed-image-passes-the-rom-checks"})
+        except Exception as e:  # pylint: disable=broad-except
+            if len(fails) < 5:
+                fails.append({"inputs": label, "detail": f"{type(e).__name__}: {e}", "obligation": "encrypted-signed-image-passes-the-rom-checks"})
+    return {"name": "encrypted + signed images decoded by hand", "function": "spsdk.image.mbi.mbi:MasterBootImage.export (encrypted_signed_ram)",
+            "method": "rt5xx, RSA-2048 repository test keys, OTP key source; TrustZone disabled / enabled / custom preset, with and without relocation table; HMAC, IVT, "
+                      "cert block header, independent signature verification and AES-CTR decryption", "bound": f"{n} images", "cases": n, "label": "bounded", "failures": fails}
